@@ -89,6 +89,9 @@ func (st *ilStmt) sql(reg map[int32]string) string {
 		return fmt.Sprintf("SELECT id, k, v FROM t WHERE id = %d OR id < 0;", st.ID)
 	case "read-range":
 		return fmt.Sprintf("SELECT id, k, v FROM t WHERE id >= %d AND id <= %d;", st.ID, st.ID2)
+	case "read-range-open":
+		// the index range starts AT the bound, the predicate rejects the row that holds it
+		return fmt.Sprintf("SELECT id, k, v FROM t WHERE id > %d AND id <= %d;", st.ID, st.ID2)
 	case "read-k":
 		return fmt.Sprintf("SELECT id, k, v FROM t WHERE k = %d;", st.K)
 	case "insert":
@@ -122,6 +125,8 @@ func (st *ilStmt) evalRead(s ilState) []rm.Row {
 			ok = id == st.ID
 		case "read-range":
 			ok = id >= st.ID && id <= st.ID2
+		case "read-range-open":
+			ok = id > st.ID && id <= st.ID2
 		case "read-k":
 			ok = k == st.K
 		}
@@ -216,6 +221,10 @@ func genIlStmt(r *rand.Rand, tok string, rmw bool, fresh *int32) ilStmt {
 			return ilStmt{Kind: "rmw-read", ID: id, Scan: r.Intn(2) == 0}
 		case 4, 5, 6, 7:
 			return ilStmt{Kind: "rmw-append", ID: id, Tok: tok}
+		case 9:
+			// a range read whose excluded lower bound is a hot row (fetched through the index, rejected by the predicate): the lock an
+			// earlier statement of the transaction took on that row has to survive it
+			return ilStmt{Kind: "read-range-open", ID: id, ID2: id + 1 + int32(r.Intn(2))}
 		case 8:
 			// a delete that is rolled back (a quarter of the programs end by abort) must be invisible to every committed transaction
 			return ilStmt{Kind: "delete", ID: id}
